@@ -33,7 +33,7 @@ def main():
     if not copies:  # "copy X to dir/" form
         for src, dst in re.findall(r"`?([\w./-]+\.go)`?[^\n]*?\bto\s+`?((?:x|types)/[\w./-]+/)`?", readme):
             copies.append((src, dst + os.path.basename(src)))
-    m = re.search(r"cd\s+(?:<repo>/)?(\S+)\s*&&\s*(go test[^\n]*)", readme)
+    m = re.search(r"cd\s+(?:<repo>/)?(\S+)\s*&&\s*(?:[A-Z]+=\S+\s+)*(go test[^\n]*)", readme)
     # every .go file of the delivery must go somewhere: files not named in a pair go to the first directory the README names
     gofiles = [f for f in os.listdir(os.path.join(d, "demo")) if f.endswith(".go")]
     named = {os.path.basename(src) for src, _ in copies}
